@@ -103,6 +103,10 @@ type FieldSpec struct {
 	Doc         string
 	Default     ConstantValue
 	Annotations Annotations
+
+	// linkingDefault is true while the default value is being linked. Using
+	// the default value during that time means that it depends on itself.
+	linkingDefault bool
 }
 
 // compileField compiles the given Field source into a FieldSpec.
@@ -163,7 +167,9 @@ func (f *FieldSpec) Link(scope Scope) (err error) {
 		return err
 	}
 	if f.Default != nil {
+		f.linkingDefault = true
 		f.Default, err = f.Default.Link(scope, f.Type)
+		f.linkingDefault = false
 	}
 	return err
 }
